@@ -2309,7 +2309,8 @@ def _update_gradient_JTDAJ_dense_tiled_compact(nv_pad: int, tile_size: int, njma
   of the result is correct.
   """
   if njmax < tile_size:
-    tile_size = njmax
+    # at least one row per tile: njmax may be 0 (the row loop below is then empty)
+    tile_size = max(njmax, 1)
 
   TILE_SIZE_K = tile_size
 
